@@ -269,6 +269,8 @@ class Interp(Engine):
         v = None
         for e in n.values:
             v = self.ev(e, fr)
+            if e is n.values[-1] and not isinstance(v, Sym):
+                return v  # Python returns the last operand as it is (its truth value is never taken)
             t = self.branch(self.truth(v))
             if is_and and not t:
                 return False if (isinstance(v, Sym) and v.kind == "bool") else v
@@ -342,7 +344,7 @@ class Interp(Engine):
             f = f.parent
         if f is None:
             raise Unsupported("yield outside generator")
-        f.yield_sink.append(self.ev(n.value, fr) if n.value is not None else None)
+        self.models.LIST_METHODS["append"](self, f.yield_sink, [self.ev(n.value, fr) if n.value is not None else None], {})
         return None
 
     def ev_Starred(self, n, fr):
@@ -631,6 +633,9 @@ class Interp(Engine):
         t = s.target
         if isinstance(t, ast.Name):
             cur = fr.lookup(t.id)
+            if hasattr(cur, "__pyvc_inplace__"):  # extension value with numpy in-place semantics
+                cur.__pyvc_inplace__(self, s.op, self.ev(s.value, fr))
+                return
             if isinstance(cur, (SArr, NArr)) or type(cur).__name__ == "S2Arr":
                 self.models.inplace_binop(self, s.op, cur, self.ev(s.value, fr))
                 return
